@@ -1102,7 +1102,7 @@ func runC20(c *Ctx) {
 			if rid, ok := ast.Unparen(se.X).(*ast.Ident); ok {
 				ast.Inspect(ins.Body, func(n ast.Node) bool {
 					as, ok := n.(*ast.AssignStmt)
-					if !ok || len(as.Rhs) != 1 || len(as.Lhs) < 2 {
+					if !ok || len(as.Rhs) != 1 || len(as.Lhs) < 1 {
 						return true
 					}
 					call, ok := ast.Unparen(as.Rhs[0]).(*ast.CallExpr)
